@@ -11,6 +11,7 @@ pub mod c09;
 pub mod c17;
 pub mod c18;
 pub mod c19;
+pub mod c20;
 
 pub fn lookup(id: &str) -> Option<&'static dyn Property> {
     let p: &'static dyn Property = match id {
@@ -24,6 +25,7 @@ pub fn lookup(id: &str) -> Option<&'static dyn Property> {
         "C17" => &c17::C17,
         "C18" => &c18::C18,
         "C19" => &c19::C19,
+        "C20" => &c20::C20,
         _ => return None,
     };
     Some(p)
